@@ -19,6 +19,26 @@ CHECKS = [
      'technique': RM + 'relational monitor over boundary sequences of related streams (shared suffix, aligned edits, independent keys) and over chunk tables of two real snapshots',
      'text': 'Pairs of related high-entropy streams through the real adapter: from the first common boundary on boundaries must be equal up to the tail zone; re-synchronisation within D=1024*max (failure probability < 1e-28, appendix A); independent keys give different boundaries; a file stored behind two different predecessors shares its interior chunks between two real snapshots.',
      'note': 'Statistical bound only for random data with min <= max/16 (as the property states); observed re-join distances are reported.'},
+    {'id': 'C04', 'level': 'fault_enumeration', 'ref': 'DESIGN.md section 4 C04',
+     'technique': RM + 'fault injection on stored objects (corruption families x object kinds x encrypted/plain, singly and in pairs) followed by the real restore; oracle = raised, or byte-equal to the restore model over the snapshots not removed; cache-off and cache-on-with-retries variants',
+     'text': 'For repositories written by the real snapshot command, every corruption family of the property (bit flips at first/last/nonce/tag/seeded offsets, truncations, extensions, swaps within and across kinds, replays, deletions), singly and in seeded pairs, is applied to a copy of the object map; the real restore (untargeted or targeted, with the snapshot cache off or on and retried after a failure) must raise or produce exactly what the intact snapshots hold. The three verification branches (chunk hash, snapshot hash, AEAD) must each have been reached.',
+     'note': 'Removal of a snapshot object is treated like delete: the snapshot is legitimately absent. Corruptions are enumerated per sampled object, not for every offset of every object.'},
+    {'id': 'C06', 'level': 'exploration', 'ref': 'DESIGN.md section 4 C06',
+     'technique': RM + 'executable access model over harness-built key graphs compared with observed unlock/list/restore/delete/clean outcomes, stdout and the actor-attributed backend mutation log',
+     'text': 'Key graphs of 2-6 keys (owner, shared, shared-of-shared, clone, independent, keys created from inside a long-lived session); full password x key unlock matrix; for every ordered pair of users: listing details, list-files, targeted and untargeted restore, refused deletes with zero mutations, confinement of delete/clean to the caller family, deduplication against same-family users.',
+     'note': 'Access model stated in DESIGN.md (family = root of the shared chain, reader = exact key). Unencrypted repositories have no keys and are not part of this check.'},
+    {'id': 'C07', 'level': 'exploration', 'ref': 'DESIGN.md section 4 C07',
+     'technique': RM + 'set-equality audit by an independent reader after every operation of crash-free histories + payload-event monitor on repeat snapshots + cross-process repeat with a different PYTHONHASHSEED over a Local directory',
+     'text': 'After every operation of crash-free multi-user histories the chunk objects of each key family must equal the locations referenced by its snapshot objects; repeat snapshots of unchanged data (same user, same-family user, shuffled argument order, long-lived or per-command Repository objects, one object re-unlocked with different keys) must transfer no chunk payload; independent families must not share names; a second interpreter must find every chunk already stored.',
+     'note': 'Holds on the histories produced. Trusted: vflib/refimpl.py (cross-checked by C14).'},
+    {'id': 'C08', 'level': 'exploration', 'ref': 'DESIGN.md section 4 C08',
+     'technique': RM + 'before/after store images + reference-reader set equalities around every completed delete/clean, starting from orphan-carrying states produced by interrupted commands; contract monitor on the location builder/parser',
+     'text': 'Histories over several key families with interrupted snapshots and deletes (permanent backend faults) that leave orphans; after each completed delete no chunk referenced only by the deleted snapshots remains (also when the command completed despite a failing deletion); after each completed clean the caller family holds exactly the referenced chunks; other families, config and foreign objects stay byte-identical; builder/parser of locations are mutual inverses on every call.',
+     'note': 'Holds on the histories produced. Orphan states come from injected permanent faults, not from process kills (those are C03).'},
+    {'id': 'C09', 'level': 'exploration', 'ref': 'DESIGN.md section 4 C09',
+     'technique': RM + 'sys.monitoring LINE/CALL yield injection (extra delays at calls on queue/future/event/lock objects, one victim side at a time) + seeded backend latencies; differential against a sequential run; online in-flight<=N invariant; slot-queue invariant at quiescence; quiescent-deadlock detector; process-exit probe',
+     'text': 'The real snapshot and restore at N in {1,2,3,5,16} on thread and coroutine backends under sampled schedules: result must equal the sequential run, in-flight transfers never exceed N, all slots are back once everything the operation started has ended (after success and after an injected permanent fault), nothing deadlocks, and a failing command lets the interpreter exit.',
+     'note': 'Schedules are sampled, not enumerated: the evidence reports distinct completion orders and interleaving signatures seen. CPython has no race detector; absence of races is not claimed.'},
 ]
 
 ALL = ['C%02d' % i for i in range(1, 21)]
